@@ -178,6 +178,11 @@ pub trait Property: 'static {
         Vec::new()
     }
     fn check(s: &Self::Scenario) -> CheckResult;
+    /// Is an externally supplied scenario (fuzzer input, hand-written replay) inside the property's input domain?
+    /// The proptest strategies only produce valid scenarios by construction; the fuzz engine filters with this.
+    fn valid(_s: &Self::Scenario) -> bool {
+        true
+    }
     fn assumptions() -> Vec<String> {
         Vec::new()
     }
@@ -595,6 +600,9 @@ pub mod gen {
                 let v = 10f64.powf(e) as f32;
                 if neg { -v } else { v }
             }),
+            // a small pool of special in-range values, so that exact coincidences (equal values, negated twins, the
+            // sign of zero, the ends of the range, powers of two) are generated at all
+            2 => proptest::sample::select(vec![-0.0f32, 0.5, -0.5, 1.0, -1.0, 2.0, -2.0, 0.25, 3.0, 1.0e-3, -1.0e-3, 1.0e4, -1.0e4, 0.001953125, 8192.0]),
         ]
         .boxed()
     }
@@ -617,6 +625,26 @@ pub mod gen {
     pub fn moderate_nonzero() -> BoxedStrategy<f32> {
         moderate().prop_map(|x| if x == 0.0 { 1.5 } else { x }).boxed()
     }
+    /// intervals a uniform or log-uniform draw practically never produces: powers of two and of ten in ns, the ends of
+    /// the range, and values just above the lower end
+    pub fn special_ns(lo: i64, hi: i64) -> BoxedStrategy<i64> {
+        let mut pool: Vec<i64> = vec![lo, lo + 1, hi, hi - 1];
+        for k in 0..62 {
+            for d in [-1i64, 0, 1] {
+                pool.push((1i64 << k) + d);
+            }
+        }
+        let mut p = 1i64;
+        for _ in 0..18 {
+            pool.push(p);
+            pool.push(p * 5);
+            p *= 10;
+        }
+        pool.retain(|x| *x >= lo && *x <= hi);
+        pool.sort();
+        pool.dedup();
+        prop_oneof![3 => proptest::sample::select(pool), 1 => (lo..=(lo.saturating_mul(2)).min(hi))].boxed()
+    }
     /// log-uniform positive nanosecond interval in [lo, hi].
     pub fn log_ns(lo: i64, hi: i64) -> BoxedStrategy<i64> {
         let (a, b) = ((lo as f64).ln(), (hi as f64).ln());
@@ -635,6 +663,35 @@ pub mod gen {
             3 => moderate(),
         ]
         .boxed()
+    }
+}
+
+// ---------------------------------------------------------------------------------------------
+// input-domain predicates (mirror the generators in `gen`)
+// ---------------------------------------------------------------------------------------------
+pub mod dom {
+    pub fn moderate(x: f32) -> bool {
+        x == 0.0 || (x.is_finite() && (1.0e-3..=1.0e4).contains(&x.abs()))
+    }
+    pub fn wide(x: f32) -> bool {
+        x == 0.0 || (x.is_finite() && (1.0e-30..=1.0e15).contains(&x.abs()))
+    }
+    pub fn finite(x: f32) -> bool {
+        x.is_finite()
+    }
+    /// sampling interval: 1 us .. 3 h (strictly positive)
+    pub fn dt_pos(dt: i64) -> bool {
+        (1_000..=10_800_000_000_000).contains(&dt)
+    }
+    pub fn t0(t: i64) -> bool {
+        t.abs() <= 1_000_000_000_000
+    }
+    /// start time of a history of at most 64 intervals of at most 3 h: anything that cannot overflow
+    pub fn t0_span(t: i64) -> bool {
+        t <= i64::MAX - 700_000_000_000_000
+    }
+    pub fn grid(u: (i8, i8)) -> bool {
+        u.0.abs() <= 3 && u.1.abs() <= 3
     }
 }
 
